@@ -2,7 +2,7 @@
 """Runs the registered checks against every seeded mutant (on scratch worktrees, never /repo)
 and writes /verif/seeded/<id>/meta.json."""
 import os, re, subprocess, sys, json, glob, concurrent.futures
-EXTRA = {'C01-m6': ['C05'], 'C04-m6': ['C01'], 'C08-m7': ['C02'], 'C16-m7': [], 'C19-m6': ['C16'], 'C13-m6': [], 'C01-m4': ['C11', 'C13'], 'C01-m5': ['C16'], 'C04-m4': ['C16'], 'C04-m5': ['C05'], 'C09-m5': ['C16'], 'C10-m4': ['C16'], 'C19-m4': ['C16'], 'C11-m5': ['C13', 'C01'], 'C16-m5': ['C13'], 'C12-m5': ['C14'], 'C09-m2': ['C16'], 'C10-m3': ['C16'], 'C19-m1': ['C07'], 'C01-m3': ['C13', 'C06', 'C11'], 'C11-m2': ['C13', 'C06'], 'C13-m2': ['C11'],
+EXTRA = {'C01-m8': ['C13'], 'C01-m9': ['C04'], 'C06-m9': ['C02'], 'C08-m9': [], 'C03-m9': [], 'C16-m9': [], 'C04-m9': ['C01'], 'C13-m9': ['C01'], 'C01-m6': ['C05'], 'C04-m6': ['C01'], 'C08-m7': ['C02'], 'C16-m7': [], 'C19-m6': ['C16'], 'C13-m6': [], 'C01-m4': ['C11', 'C13'], 'C01-m5': ['C16'], 'C04-m4': ['C16'], 'C04-m5': ['C05'], 'C09-m5': ['C16'], 'C10-m4': ['C16'], 'C19-m4': ['C16'], 'C11-m5': ['C13', 'C01'], 'C16-m5': ['C13'], 'C12-m5': ['C14'], 'C09-m2': ['C16'], 'C10-m3': ['C16'], 'C19-m1': ['C07'], 'C01-m3': ['C13', 'C06', 'C11'], 'C11-m2': ['C13', 'C06'], 'C13-m2': ['C11'],
          'C06-m3': ['C11'], 'C04-m3': ['C05'], 'C04-m2': ['C01', 'C05'], 'C18-m3': ['C13']}
 confirm = {}
 for l in open('/verif/seeded/confirm.jsonl'):
